@@ -208,6 +208,85 @@ func main() {
 		}
 		pool <- e
 	}
+	// fourth part, long deterministic histories: the multi-key operations on key lists far beyond the BFS alphabet
+	// (an implementation may split long lists into batches): PutMany / GetMany / ListKeys with 1..2049 keys, the
+	// GetMany list reversed, with every 7th key missing and every 50th repeated
+	{
+		e := <-pool
+		ctx := context.Background()
+		for _, n := range []int{1, 2, 63, 64, 65, 127, 128, 129, 255, 256, 257, 300, 1000, 1025, 2049} {
+			for name, stg := range map[string]kvs.Storage{"inmem": e.im.Fresh(), "redis": e.rd.Fresh()} {
+				bad := ""
+				recs := make([]kvs.Record, n)
+				wantVal := map[string]string{}
+				for i := range recs {
+					recs[i] = kvs.Record{Key: fmt.Sprintf("k%04d", i), Value: []byte(fmt.Sprintf("value %d", i))}
+					wantVal[recs[i].Key] = string(recs[i].Value)
+				}
+				if err := stg.PutMany(ctx, recs); err != nil {
+					bad = fmt.Sprintf("PutMany of %d records returned %v", n, err)
+				}
+				var ask []string
+				for i := n - 1; i >= 0; i-- {
+					ask = append(ask, recs[i].Key)
+					if i%7 == 0 {
+						ask = append(ask, fmt.Sprintf("missing%04d", i))
+					}
+					if i%50 == 0 {
+						ask = append(ask, recs[i].Key)
+					}
+				}
+				got, err := stg.GetMany(ctx, ask...)
+				if bad == "" && (err != nil || len(got) != len(ask)) {
+					bad = fmt.Sprintf("GetMany of %d keys returned %d records, %v", len(ask), len(got), err)
+				}
+				vers := map[string]bool{}
+				for i := 0; bad == "" && i < len(ask); i++ {
+					k := ask[i]
+					switch {
+					case strings.HasPrefix(k, "missing"):
+						if got[i] != nil {
+							bad = fmt.Sprintf("GetMany of %d keys: position %d (key %q, never written) holds a record with key %q", len(ask), i, k, got[i].Key)
+						}
+					case got[i] == nil:
+						bad = fmt.Sprintf("GetMany of %d keys: position %d (key %q, written by the PutMany before) is nil", len(ask), i, k)
+					case got[i].Key != k || string(got[i].Value) != wantVal[k]:
+						bad = fmt.Sprintf("GetMany of %d keys: position %d asked for %q and holds (key %q, value %q)", len(ask), i, k, got[i].Key, got[i].Value)
+					case got[i].Version == "":
+						bad = fmt.Sprintf("GetMany of %d keys: position %d (key %q) has an empty version", len(ask), i, k)
+					default:
+						vers[k+"="+got[i].Version] = true
+					}
+				}
+				if bad == "" && len(vers) != n {
+					bad = fmt.Sprintf("GetMany of %d keys: %d distinct (key, version) pairs for %d keys written once", len(ask), len(vers), n)
+				}
+				if it, err := stg.ListKeys(ctx, "k*"); err == nil && bad == "" {
+					cnt := map[string]int{}
+					for it.HasNext() {
+						k, _ := it.Next()
+						cnt[k]++
+					}
+					it.Close()
+					for _, r := range recs {
+						if cnt[r.Key] != 1 {
+							bad = fmt.Sprintf("ListKeys(k*) over %d keys lists %q %d times", n, r.Key, cnt[r.Key])
+							break
+						}
+					}
+					if bad == "" && len(cnt) != n {
+						bad = fmt.Sprintf("ListKeys(k*) over %d keys lists %d distinct keys", n, len(cnt))
+					}
+				} else if bad == "" {
+					bad = fmt.Sprintf("ListKeys(k*) over %d keys returned %v", n, err)
+				}
+				if bad != "" {
+					found = append(found, bfs.Found[kvh.Op]{V: &bfs.Violation{Sig: name + " long-key-list", Detail: name + ": " + bad}})
+				}
+			}
+		}
+		pool <- e
+	}
 	for k := range knownSeen {
 		run.Violation(k, "", nil)
 	}
@@ -225,6 +304,6 @@ func main() {
 	run.Finish(ev.Coverage{
 		"states": st.States, "transitions": st.Transitions, "traces_validated_against_impl": st.Transitions * 2, "samples": samples.List,
 		"exhaustive": st.Fixpoint, "fixpoint": st.Fixpoint, "depth": st.Depth, "capped": st.Capped, "alphabet_size": len(al), "states_per_depth": st.PerDepth,
-		"rule": "BFS over all sequences of Storage operations (Create/Put with values nil,\"\",x and expiry none/+1h; PutMany with 0,1,2 records, repeated key, mixed expiry; Get; GetMany incl. repeats and missing keys; CasByVersion with current/stale/never-issued/empty version; Delete; ListKeys with 7-10 patterns) over keys a,(b),/c to a fixpoint of the canonical model state; the in-memory and the Redis backend (miniredis) are driven in lock-step by the same list, every result and the full observable state after every operation are compared with the reference model (versions as tokens)",
+		"rule": "BFS over all sequences of Storage operations (Create/Put with values nil,\"\",x and expiry none/+1h; PutMany with 0,1,2 records, repeated key, mixed expiry; Get; GetMany incl. repeats and missing keys; CasByVersion with current/stale/never-issued/empty version; Delete; ListKeys with 7-10 patterns) over keys a,(b),/c to a fixpoint of the canonical model state; the in-memory and the Redis backend (miniredis) are driven in lock-step by the same list; plus deterministic long histories (21 keys that a key mapping might normalise away; PutMany/GetMany/ListKeys over 1..2049 keys around the sizes 64/128/256/1024/2048); every result and the full observable state after every operation are compared with the reference model (versions as tokens)",
 	})
 }
